@@ -159,8 +159,10 @@ impl<'a> PrettyPrinter<'a> {
                 FlowItem::new(self.convert_trivia_untyped(node), true, false)
             } else if let Some(expr) = node.cast::<Expr>() {
                 // The expression after a hash is converted in code mode.
+                // (So would it after a float that ends with a dot: `#1. _x` is not `#1._x`.)
                 after_hashed_expr = ctx.mode == Mode::Code
-                    && (node.clone().into_text()).ends_with(typst_syntax::is_id_continue);
+                    && (node.clone().into_text())
+                        .ends_with(|c| typst_syntax::is_id_continue(c) || c == '.');
                 after_backslash = node.kind() == SyntaxKind::Linebreak;
                 // The blank is only printed before an item that asks for one, i.e. the underscore.
                 FlowItem::new(
